@@ -143,6 +143,23 @@ func opCreateProject(g *G) bool {
 
 func (g *G) issuances(n int) []*base.BatchIssuance {
 	var out []*base.BatchIssuance
+	if g.R.Chance(1, 10) {
+		// duplicates within one message: the same recipient twice around a zero-amount item
+		r, other := g.user(), g.user()
+		a1, _ := g.issueAmount()
+		a2 := fmt.Sprint(1 + g.R.Intn(5000))
+		zero := []string{"0", "0.0", "0.000000"}[g.R.Intn(3)]
+		out = []*base.BatchIssuance{
+			{Recipient: g.App.Addr(r), TradableAmount: a1},
+			{Recipient: g.App.Addr(other), TradableAmount: zero},
+			{Recipient: g.App.Addr(r), TradableAmount: a2, RetiredAmount: "1.5", RetirementJurisdiction: g.jur()},
+		}
+		if g.R.Bool() {
+			out = append(out, &base.BatchIssuance{Recipient: g.App.Addr(r), RetiredAmount: "0", TradableAmount: "0.000001"})
+		}
+		g.bump("dup:issuance-same-recipient-around-zero-item")
+		return out
+	}
 	first := g.user()
 	for i := 0; i < n; i++ {
 		r := g.user()
@@ -290,6 +307,7 @@ func opSend(g *G) bool {
 	if g.R.Chance(1, 6) {
 		credits = append(credits, &base.MsgSend_SendCredits{BatchDenom: h.Batch.Denom, TradableAmount: "0.000001"})
 		note += ", same batch twice"
+		g.bump("dup:send-same-batch-twice")
 	}
 	g.Do(g.App.MsgSendMulti(sender, rcpt, credits...), note)
 	return true
@@ -309,7 +327,7 @@ func opRetire(g *G) bool {
 	if g.bad() && g.R.Chance(1, 4) {
 		owner, note = g.otherUser(h.Acct), note+" by a non-holder"
 	}
-	g.Do(g.App.MsgRetire(owner, g.jur(), "offset", chain.Credits(h.Batch.Denom, a)), note)
+	g.Do(g.App.MsgRetire(owner, g.jur(), "offset", g.dupCredits(h.Batch.Denom, a, &note)...), note)
 	return true
 }
 
@@ -322,8 +340,27 @@ func opCancel(g *G) bool {
 	h := hs[g.R.Intn(len(hs))]
 	a, k := g.amount(h.T)
 	g.bump("amount:" + k)
-	g.Do(g.App.MsgCancel(h.Acct, "cancel", chain.Credits(h.Batch.Denom, a)), "cancel ("+k+")")
+	note := "cancel (" + k + ")"
+	g.Do(g.App.MsgCancel(h.Acct, "cancel", g.dupCredits(h.Batch.Denom, a, &note)...), note)
 	return true
+}
+
+// dupCredits returns the credits list of a Retire/Cancel/Bridge: normally one entry; in ~10 % of the
+// cases the same batch denom twice (the amount split in two, or the amount plus a dust entry).
+func (g *G) dupCredits(denom, amount string, note *string) []*base.Credits {
+	if !g.R.Chance(1, 10) {
+		return []*base.Credits{chain.Credits(denom, amount)}
+	}
+	g.bump("dup:credits-same-batch-twice")
+	*note += ", same batch twice"
+	if r, _, ok := monitor.ParseStrict(amount); ok && r.Sign() > 0 {
+		h1 := fmtRat(new(big.Rat).Quo(r, big.NewRat(2, 1)), 6)
+		h2 := fmtRat(new(big.Rat).Sub(r, rat(h1)), 6)
+		if rat(h1).Sign() > 0 && rat(h2).Sign() > 0 {
+			return []*base.Credits{chain.Credits(denom, h1), chain.Credits(denom, h2)}
+		}
+	}
+	return []*base.Credits{chain.Credits(denom, amount), chain.Credits(denom, "0.000001")}
 }
 
 func chainNames(v *monitor.View) []string { return sortedDenoms(v.Chains) }
@@ -367,7 +404,8 @@ func opBridge(g *G) bool {
 	}
 	a, k := g.amount(h.T)
 	g.bump("amount:" + k)
-	g.Do(g.App.MsgBridge(h.Acct, target, ethAddr(9), chain.Credits(h.Batch.Denom, a)), note+" ("+k+")")
+	note += " (" + k + ")"
+	g.Do(g.App.MsgBridge(h.Acct, target, ethAddr(9), g.dupCredits(h.Batch.Denom, a, &note)...), note)
 	return true
 }
 
@@ -420,10 +458,15 @@ func opAdminNoise(g *G) bool {
 		if g.R.Bool() {
 			rem = []int{g.user()}
 		}
-		if len(rem) == 1 && rem[0] == add[0] {
+		note := "class issuers add/remove"
+		if g.R.Chance(1, 6) {
+			rem = []int{add[0]}
+			note = "class issuers: add and remove the same address in one message"
+			g.bump("dup:issuers-add-and-remove-same-address")
+		} else if len(rem) == 1 && rem[0] == add[0] {
 			rem = nil
 		}
-		g.Do(g.App.MsgUpdateClassIssuers(admin, c.ID, add, rem), "class issuers add/remove")
+		g.Do(g.App.MsgUpdateClassIssuers(admin, c.ID, add, rem), note)
 	case 2:
 		g.Do(g.App.MsgUpdateClassMetadata(admin, c.ID, g.id("class-md2")), "class metadata")
 	case 3:
